@@ -15,6 +15,7 @@ package sctp
 import (
 	"bufio"
 	"context"
+	"errors"
 	"fmt"
 	"os"
 	"sort"
@@ -31,7 +32,8 @@ const (
 	sdRetNotCalled = 0
 	sdRetWaiting   = 1
 	sdRetNil       = 2
-	sdRetErr       = 3
+	sdRetErr       = 3 // refused at once (ErrShutdownNonEstablished) or any other error
+	sdRetIncomplete = 4 // ErrShutdownIncomplete: the association closed before the sequence completed
 )
 
 type sdCall struct {
@@ -51,6 +53,8 @@ func (c *sdCall) status() int {
 		return sdRetWaiting
 	case c.err == nil:
 		return sdRetNil
+	case errors.Is(c.err, ErrShutdownIncomplete):
+		return sdRetIncomplete
 	default:
 		return sdRetErr
 	}
@@ -88,7 +92,7 @@ func sdExtDrop(s *sim) {
 
 type sdSnap struct {
 	state                  uint32
-	wsd, wsa, wsc, scp, t2 bool
+	wsd, wsa, wsc, scp, done, t2 bool
 	pend, infl, ack, ret   int
 	down                   bool
 	cumAck, nextTSN        uint32
@@ -104,7 +108,7 @@ func sdSnapshot(s *sim, side int) sdSnap {
 	a.lock.RLock()
 	sn := sdSnap{
 		state: a.getState(), wsd: a.willSendShutdown, wsa: a.willSendShutdownAck, wsc: a.willSendShutdownComplete,
-		scp: a.shutdownCompletePending, pend: a.pendingQueue.size(), infl: a.inflightQueue.size(), ack: a.ackState,
+		scp: a.shutdownCompletePending, done: a.shutdownCompleted, pend: a.pendingQueue.size(), infl: a.inflightQueue.size(), ack: a.ackState,
 		cumAck: a.cumulativeTSNAckPoint, nextTSN: a.myNextTSN, peerLast: a.peerLastTSN(), maxPayload: a.maxPayloadSize,
 		inflTSNs: map[uint32]bool{},
 	}
@@ -128,7 +132,7 @@ func sdSnapshot(s *sim, side int) sdSnap {
 }
 
 func (n sdSnap) line() string {
-	return fmt.Sprintf("%d %d %d %d %d %d %d %d %d %d %d", n.state, b2i(n.wsd), b2i(n.wsa), b2i(n.wsc), b2i(n.scp), b2i(n.t2),
+	return fmt.Sprintf("%d %d %d %d %d %d %d %d %d %d %d %d", n.state, b2i(n.wsd), b2i(n.wsa), b2i(n.wsc), b2i(n.scp), b2i(n.done), b2i(n.t2),
 		n.pend, n.infl, n.ack, n.ret, b2i(n.down))
 }
 
@@ -196,6 +200,8 @@ func sdPktKind(p *simPkt) string {
 		return "SHUTDOWNCOMPLETE"
 	case *chunkInit:
 		return "INIT"
+	case *chunkAbort:
+		return "ABORT"
 	default:
 		return "OTHER"
 	}
@@ -209,7 +215,7 @@ func (r *sdRecorder) emitted(s *sim, side int) (kinds []string, rtx bool, other 
 			continue
 		}
 		k := sdPktKind(p)
-		if k == "OTHER" {
+		if k == "OTHER" || k == "ABORT" {
 			other = true
 			if os.Getenv("VERIF_SD_DEBUG") != "" {
 				fmt.Printf("SDDEBUG other packet: %s\n", pktSummary(p))
@@ -315,6 +321,8 @@ func (r *sdRecorder) after(s *sim, ev *simEvent) {
 			r.emit(s, side, "shutdown-ack", func(pre, post sdSnap, moved, acked int) (string, bool) { return "sdack", true }, 0, true, false)
 		case "SHUTDOWNCOMPLETE":
 			r.emit(s, side, "shutdown-complete", func(pre, post sdSnap, moved, acked int) (string, bool) { return "sdcomp", true }, 0, true, false)
+		case "ABORT":
+			r.emit(s, side, "abort", func(pre, post sdSnap, moved, acked int) (string, bool) { return "abort", true }, 0, true, false)
 		case "INIT":
 			r.emit(s, side, "init", func(pre, post sdSnap, moved, acked int) (string, bool) { return "init", true }, 0, true, false)
 		}
@@ -333,6 +341,9 @@ func (r *sdRecorder) after(s *sim, ev *simEvent) {
 	case "sd-shutdown":
 		side := ev.side
 		r.emit(s, side, "shutdown-call", func(pre, post sdSnap, moved, acked int) (string, bool) { return "shutdown", true }, 0, ev.err == nil, false)
+	case "sd-close":
+		side := ev.side
+		r.emit(s, side, "close-call", func(pre, post sdSnap, moved, acked int) (string, bool) { return "close", true }, 0, true, false)
 	case "sd-transport-down":
 		side := ev.side
 		r.emit(s, side, "transport-down", func(pre, post sdSnap, moved, acked int) (string, bool) { return "down", true }, 0, true, false)
@@ -418,6 +429,20 @@ func sdTransportDown(s *sim, side int) {
 	}
 	s.logEvent("transport-down side=%d", side)
 	_ = s.conn[side].Close()
+	s.settle()
+	for _, o := range s.obs {
+		o.after(s, ev)
+	}
+}
+
+// sdCallClose: the user calls Close while Shutdown may be blocked.
+func sdCallClose(s *sim, side int) {
+	ev := &simEvent{kind: "sd-close", side: side}
+	for _, o := range s.obs {
+		o.before(s, ev)
+	}
+	s.logEvent("close side=%d", side)
+	_ = s.assoc[side].Close()
 	s.settle()
 	for _, o := range s.obs {
 		o.after(s, ev)
@@ -674,6 +699,7 @@ func runSdScenario(t *testing.T, sc sdScenario, store *sdRecStore, st *sdStats) 
 		limit := s.now() + 90*time.Second
 		plan := sc.plan
 		neededTransport := false
+		var transportClosedByHarness [2]bool
 		for s.now() < limit {
 			from, ok := sdOldest(s, x)
 			if !ok {
@@ -745,6 +771,7 @@ func runSdScenario(t *testing.T, sc sdScenario, store *sdRecStore, st *sdStats) 
 				if sdClosed(s.assoc[peer]) {
 					// the peer is gone: this side's transport closes; it must end up closed with its loops exited
 					neededTransport = true
+					transportClosedByHarness[side] = true
 					sdTransportDown(s, side)
 					if !sdClosed(a) || !sdLoopsExited(a) {
 						s.fail("C08", fmt.Sprintf("(not-closed-after-transport-close) side=%d state=%s after its transport closed", side, getAssociationStateString(a.getState())))
@@ -781,6 +808,9 @@ func runSdScenario(t *testing.T, sc sdScenario, store *sdRecStore, st *sdStats) 
 				if !sdClosed(a) {
 					s.fail("C08", fmt.Sprintf("(nil-before-closed) Shutdown returned nil on side=%d in state %s", side, getAssociationStateString(a.getState())))
 				}
+			}
+			if ret == sdRetIncomplete && !transportClosedByHarness[side] {
+				s.fail("C08", fmt.Sprintf("(shutdown-error-although-completed) side=%d closed through the shutdown sequence but Shutdown returned %v", side, x.call[side].err))
 			}
 			if ret == sdRetErr && side == 0 {
 				s.fail("C08", fmt.Sprintf("(shutdown-refused) Shutdown on an established association returned %v", x.call[side].err))
@@ -1122,7 +1152,7 @@ func runSdMatrix(t *testing.T, store *sdRecStore, st *sdStats) int {
 // unless the peer got the messages.
 func runSdTransportLoss(t *testing.T, store *sdRecStore, st *sdStats) int {
 	runs := 0
-	for _, how := range []string{"transport-failure", "peer-transport-failure-after-delivery", "local-close"} {
+	for _, how := range []string{"transport-failure", "peer-transport-failure-after-delivery", "local-close", "peer-abort", "shutdown-complete-lost"} {
 		how := how
 		runs++
 		synctest.Test(t, func(t *testing.T) {
@@ -1139,6 +1169,7 @@ func runSdTransportLoss(t *testing.T, store *sdRecStore, st *sdStats) int {
 			s.obs = append(s.obs, &sdRecorder{st: store})
 			_ = s.write(0, 1, 100, PayloadTypeWebRTCBinary)
 			sdCallShutdown(s, 0)
+			wantNil := false
 			switch how {
 			case "transport-failure":
 				for len(s.flight[0]) > 0 {
@@ -1146,7 +1177,7 @@ func runSdTransportLoss(t *testing.T, store *sdRecStore, st *sdStats) int {
 				}
 				sdTransportDown(s, 0)
 			case "peer-transport-failure-after-delivery":
-				// the DATA arrives, the SACK does not; then the transport fails: nil is justified here
+				// the DATA arrives, the SACK does not; then the transport fails: the sequence did not complete
 				for len(s.flight[0]) > 0 {
 					s.deliver(0, 0, false)
 				}
@@ -1159,23 +1190,46 @@ func runSdTransportLoss(t *testing.T, store *sdRecStore, st *sdStats) int {
 				for len(s.flight[0]) > 0 {
 					s.drop(0, 0)
 				}
-				_ = s.assoc[0].Close()
-				s.settle()
+				sdCallClose(s, 0)
+			case "peer-abort":
+				for len(s.flight[0]) > 0 {
+					s.drop(0, 0)
+				}
+				sdInject(s, 0, sdCraft(s, 0, &chunkAbort{}), "ABORT")
+			case "shutdown-complete-lost":
+				// control: everything up to and including the SHUTDOWN ACK arrives at A, the SHUTDOWN COMPLETE is lost:
+				// the sequence completed from A's point of view, nil is justified (and the message was delivered)
+				wantNil = true
+				for i := 0; i < 50 && !sdClosed(s.assoc[0]); i++ {
+					from, ok := sdOldest(s, x)
+					if !ok {
+						s.advance(137 * time.Millisecond)
+						continue
+					}
+					s.deliver(from, 0, false)
+					s.readAll()
+				}
+				for len(s.flight[0]) > 0 {
+					s.drop(0, 0)
+				}
 			}
 			s.readAll()
 			ret := x.call[0].status()
 			got := len(s.recvd[1][1])
 			if ret == sdRetNil && got != 1 {
-				msg := fmt.Sprintf("(shutdown-nil-on-%s) Shutdown returned nil although the peer received %d of 1 message written before the call (state at return: closed through closeWriteLoopCh)", how, got)
-				if how == "local-close" {
-					// the user closed the association himself while Shutdown was blocked: reported as a note, not as a failure
-					fmt.Printf("SIMNOTE prop=C08 %s\n", msg)
-				} else {
-					s.fail("C08", msg)
-				}
+				s.fail("C08", fmt.Sprintf("(shutdown-nil-on-%s) Shutdown returned nil although the peer received %d of 1 message written before the call (state at return: closed through closeWriteLoopCh)", how, got))
+			}
+			if !wantNil && ret != sdRetIncomplete {
+				s.fail("C08", fmt.Sprintf("(shutdown-result-on-%s) Shutdown returned %d (err=%v), expected ErrShutdownIncomplete: the association closed before the shutdown sequence completed", how, ret, x.call[0].err))
+			}
+			if wantNil && ret != sdRetNil {
+				s.fail("C08", fmt.Sprintf("(shutdown-result-on-%s) Shutdown returned %d (err=%v), expected nil: SHUTDOWN ACK had been received", how, ret, x.call[0].err))
 			}
 			if ret == sdRetWaiting {
 				s.fail("C08", fmt.Sprintf("(shutdown-call-hangs) Shutdown still blocked after %s", how))
+			}
+			if !sdClosed(s.assoc[0]) || !sdLoopsExited(s.assoc[0]) {
+				s.fail("C08", fmt.Sprintf("(not-closed-after-%s) side 0 state=%s", how, getAssociationStateString(s.assoc[0].getState())))
 			}
 			s.closeBoth()
 			st.report(s)
